@@ -54,6 +54,7 @@ ASSUMPTIONS = [
     "'enabled' for a named augmentation = its probability field is in (0, 1] and, for rotation / scale / translate, "
     "its own range is non-degenerate (rotation != 0; scale[0] != scale[1]; translate_width or _height > 0); affine "
     "parameters of components that are NOT named may be either the schema default or neutral (0, (1,1), None)",
+    "out-of-range probabilities include not-a-number (a value for which neither v < 0 nor v > 1 holds)",
     "'reject' = the constructor / builder raises (any exception type; the type is recorded in the outcome census); "
     "verify_training_cfg on an already-assembled invalid DictConfig is only observed (obs_* counters), the property "
     "speaks about configuration objects",
@@ -953,7 +954,8 @@ def run_validity(case, o):
     expect_reject = case["kind"] == "invalid"
     o.transitions += 1
     try:
-        obj = build_target(case["target"], case["field"], case["value"])
+        value = float("nan") if case["value"] == "NaN" else case["value"]  # "NaN": not-a-number (JSON-able marker)
+        obj = build_target(case["target"], case["field"], value)
     except Exception as e:
         o.outcome = ("rejected", case["target"], type(e).__name__, str(e)[:80])
         if not expect_reject:
@@ -1231,7 +1233,7 @@ def enumerate_cases(tier):
     for cls, sub, fields in (("IntensityConfig", "intensity", ["uniform_noise_p", "gaussian_noise_p", "contrast_p", "brightness_p"]), ("GeometricConfig", "geometric", ["affine_p", "erase_p", "mixup_p"])):
         for f in fields:
             for t, pre in ((f"cls:DC.{cls}", ""), (f"get_aug_config.{sub}", sub + "."), (f"get_data_config.{sub}", f"augmentation_config.{sub}.")):
-                for v in (-0.1, 1.1) + ((-1e-9, 1.000001, 2.0, -1.0) if thorough else ()):
+                for v in (-0.1, 1.1, "NaN") + ((-1e-9, 1.000001, 2.0, -1.0, float("inf")) if thorough else ()):
                     inv(t, f, v)
                 for v in (0.0, 1.0, 0.5):
                     val(t, f, v, pre + f)
